@@ -175,20 +175,30 @@ func c13wSpecial(m vfshared.Method) bool {
 }
 
 func c13Fail(t interface{ Fatalf(string, ...any) }, st *vfshared.Stats, part string, c any, err error) {
+	c13FailP("C13", t, st, part, c, err)
+}
+
+func c13FailP(prop string, t interface{ Fatalf(string, ...any) }, st *vfshared.Stats, part string, c any, err error) {
 	if len(err.Error()) > 8 && err.Error()[:8] == "HARNESS:" {
 		t.Fatalf("%v", err)
 	}
-	p := vfshared.WriteReplay("C13", part, c)
+	p := vfshared.WriteReplay(prop, part, c)
 	st.Violation(p, err.Error())
-	t.Fatalf("C13 violated: %v (replay %s)", err, p)
+	t.Fatalf("%s violated: %v (replay %s)", prop, err, p)
 }
 
-func TestVF_C13_Direction(t *testing.T) {
+func TestVF_C13_Direction(t *testing.T) { c13wDirectionTest(t, "C13", false) }
+
+// TestVF_C14_Direction: the same worlds, restricted to AdminService messages that can carry search attributes and to
+// configurations with a search-attribute mapping ("following the same direction rules as namespaces").
+func TestVF_C14_Direction(t *testing.T) { c13wDirectionTest(t, "C14", true) }
+
+func c13wDirectionTest(t *testing.T, prop string, saFocus bool) {
 	const part = "direction"
 	if rp := vfshared.ReplayPart(); rp != "" && rp != part {
 		t.Skip()
 	}
-	st := vfshared.NewStats("C13", part, "really assembled ClusterConnection (NewClusterConnection, loopback TCP, recording fake cluster on each side) configured with namespace and search-attribute mappings; a random populated request is sent through the inbound or the outbound server and the fake answers with a random populated response; oracle: what the far cluster saw / what the caller got equals the reference translation in the direction the statement prescribes (inbound: request remote->local, response local->remote; outbound: the opposite); non-trivial = >=1 mapped name or key in the pair; distinct = (method, side, mapping, messages)")
+	st := vfshared.NewStats(prop, part, "really assembled ClusterConnection (NewClusterConnection, loopback TCP, recording fake cluster on each side) configured with namespace and search-attribute mappings; a random populated request is sent through the inbound or the outbound server and the fake answers with a random populated response; oracle: what the far cluster saw / what the caller got equals the reference translation in the direction the statement prescribes (inbound: request remote->local, response local->remote; outbound: the opposite); non-trivial = >=1 mapped name or key in the pair; distinct = (method, side, mapping, messages)")
 	defer st.Flush()
 	defer func() {
 		for _, w := range c13wWorlds {
@@ -204,15 +214,28 @@ func TestVF_C13_Direction(t *testing.T) {
 		h, err := c13wRun(c)
 		st.Case(vfshared.Fingerprint(c.Method, c.Side, c.Mapping, string(c.Req), string(c.Resp)), h > 0)
 		if err != nil {
-			c13Fail(t, st, part, c, err)
+			c13FailP(prop, t, st, part, c, err)
 		}
 		return
 	}
 	var methods []vfshared.Method
 	for _, m := range vfshared.Methods() {
-		if !c13wSpecial(m) {
-			methods = append(methods, m)
+		if c13wSpecial(m) {
+			continue
 		}
+		if saFocus {
+			if m.Service != "admin" {
+				continue
+			}
+			n := 0
+			for _, d := range []protoreflect.MessageDescriptor{m.In, m.Out} {
+				n += len(vfshared.EnumPaths(d, vfshared.IsSearchAttrContainer, vfshared.EnumOptions{MaxRepeat: 1, ThroughBlobs: true, StopAtLeaf: true}))
+			}
+			if n == 0 {
+				continue
+			}
+		}
+		methods = append(methods, m)
 	}
 	onPath := map[protoreflect.FullName]bool{}
 	for _, m := range methods {
@@ -230,6 +253,9 @@ func TestVF_C13_Direction(t *testing.T) {
 	rapid.Check(t, func(rt *rapid.T) {
 		m := methods[rapid.IntRange(0, len(methods)-1).Draw(rt, "method")]
 		mi := rapid.IntRange(0, len(c13wMappings)-1).Draw(rt, "mapping")
+		if saFocus && len(c13wMappings[mi].SA) == 0 {
+			mi = 1 + mi%3
+		}
 		side := rapid.SampledFrom([]string{"inbound", "outbound"}).Draw(rt, "side")
 		mp := c13wMappings[mi]
 		var names, keys []string
@@ -267,7 +293,7 @@ func TestVF_C13_Direction(t *testing.T) {
 		c := c13wCase{Method: m.FullMethod, Side: side, Mapping: mi, Req: b1, Resp: b2, ReqTxt: prototext.Format(req), RespTxt: prototext.Format(resp)}
 		h, err := c13wRun(c)
 		if err != nil {
-			c13Fail(rt, st, part, c, err)
+			c13FailP(prop, rt, st, part, c, err)
 		}
 		st.Case(vfshared.Fingerprint(c.Method, c.Side, c.Mapping, string(c.Req), string(c.Resp)), h > 0, "side_"+side)
 		if h > 0 && st.WantSample() {
